@@ -6,21 +6,27 @@ import Juniper.Proofs.PipeFifo
 `Props/C10.lean` proves "no stuck call" per call: a pending `Send` / `TrySend` / `Next` whose return
 condition holds has an enabled step, each of its own steps brings it closer to its return (`stage`,
 `rstage`), and the condition is stable. This file adds the *global* form: `mu` (the stages of all pending
-calls summed) is strictly decreased by **every** internal step of the LTS, whichever goroutine takes it;
-hence no run of internal steps is longer than `2·senders + 2` — the library cannot keep itself busy — and
-a quiescent state is exactly one in which every pending call waits for an action of the environment
-(the peer calling `Next` / `Send`, a `Close`, a context expiry): the pipe never waits on itself.
+calls summed) is strictly decreased by **every** internal step of the LTS (arms, rendez-vous, parking),
+whichever goroutine takes it; hence no run of internal steps is longer than `2·senders + 3` — the library
+cannot keep itself busy — and a quiescent state is exactly one in which every pending call is parked and
+waits for an action of the environment (the peer calling `Next` / `Send`, a `Close`, a context expiry):
+the pipe never waits on itself; on an unbuffered pipe a `Send` and a `Next` never both wait.
+
+No fairness assumption is used in this file: the statements are about which steps are enabled and
+about the measure, in every state. Environment labels (a call being started, `Close`, a context
+expiring) are not internal and may raise `mu`.
 -/
 namespace Juniper.Props.C10Progress
 open Juniper.Facts Juniper.Gen.Pipe Juniper.Model.Pipe Juniper.Proofs.Pipe
 
-/-- **Internal steps terminate (Pipe).** Every internal step (a `select` arm of a pending `Send`,
-`TrySend` or `Next`, a rendez-vous on the unbuffered channel) strictly decreases `mu`, in every state;
-`mu ≤ 2·senders + 2`; so a run of internal steps from `st` has at most `mu st` steps and there is no
-infinite one. -/
+/-- **Internal steps terminate (Pipe).** Every internal step (labels `sender i a`, `recv a`, `handoff i`,
+`park i`, `parkRecv`: a `select` arm of a pending `Send`, `TrySend` or `Next`, a rendez-vous on the
+unbuffered channel, a blocking `select` parking) strictly decreases `mu`, in every state (reachable or
+not); `mu ≤ 2·senders + 3`; so a run of internal steps from `st` has at most `mu st` steps and there is no
+infinite one. Environment labels are not covered (they start new calls). -/
 theorem pipe_internal_steps_terminate (st : State) :
     (∀ l st', step st l = some st' → l.internal = true → mu st' < mu st) ∧
-    mu st ≤ 2 * st.senders.length + 2 ∧
+    mu st ≤ 2 * st.senders.length + 3 ∧
     (∀ ls st', (∀ l ∈ ls, l.internal = true) → run st ls = some st' → ls.length + mu st' ≤ mu st) ∧
     ¬ ∃ σ : Nat → State, σ 0 = st ∧ ∀ n, ∃ l, l.internal = true ∧ step (σ n) l = some (σ (n + 1)) := by
   refine ⟨fun l st' h hl => mu_decreases h hl, mu_le st, fun ls st' hl hr => run_mu hr hl, ?_⟩
@@ -36,39 +42,72 @@ theorem pipe_internal_steps_terminate (st : State) :
   have := key (mu (σ 0) + 1)
   omega
 
-/-- non-vacuity: sender 0 parked in `Send 9` on a full buffer, sender 1 at the first `select` of
-`TrySend 8`: measure 3; the two `default` arms of the `TrySend` bring it to 1 -/
-example : ∃ st st', Reach (init 2 1) st ∧ mu st = 3 ∧
-    run st [.sender 1 .dflt, .sender 1 .dflt] = some st' ∧ mu st' = 1 :=
+/-- non-vacuity: sender 0 polling in `Send 9` on a full buffer, sender 1 at the first `select` of
+`TrySend 8`: measure 4; the two `default` arms of the `TrySend` and the parking of the `Send` bring it to 1 -/
+example : ∃ st st', Reach (init 2 1) st ∧ mu st = 4 ∧
+    run st [.sender 1 .dflt, .park 0, .sender 1 .dflt] = some st' ∧ mu st' = 1 :=
   ⟨after (init 2 1) [.startSend 0 7 false, .sender 0 (.send chData), .startSend 0 9 false, .startTry 1 8 false], _,
    reach_after (by decide), by decide, rfl, by decide⟩
 
-/-- **In a quiescent state every pending call waits for the environment (Pipe).** If no internal step is
-enabled then: no `TrySend` is pending (it never waits); a pending `Send` has a live context, neither the
-receiver nor the sender is closed, the buffer is full and no receiver is there for a rendez-vous — it
-waits for a `Next`, a `Close` or its context; the receiver is not in the drain (the drain never waits);
-a pending `Next` has a live context, an empty buffer, an open sender and no sender offering a value — it
-waits for a `Send`, the sender's `Close` or its context. The facts used about the regenerated tables
-(the three `Done` arms and the data arm of `Send`, both `default` arms of `TrySend`, the arms of `Next`
-and of its drain) are discharged here by `decide`. -/
+/-- **In a quiescent state every pending call is parked and waits for the environment (Pipe).** If no
+internal step is enabled (in any state, reachable or not) then: no `TrySend` is pending (it never waits);
+a pending `Send` is parked, has a live context, neither the receiver nor the sender is closed, the buffer
+is full and no rendez-vous is possible — it waits for a `Next`, a `Close` or its context; the receiver is
+not in the drain (the drain never waits); a pending `Next` is parked, has a live context, an empty buffer,
+an open sender and no rendez-vous possible — it waits for a `Send`, the sender's `Close` or its context.
+The facts used about the regenerated tables (the three `Done` arms and the data arm of `Send`, both
+`default` arms of `TrySend`, the arms of `Next` and of its drain) are discharged here by `decide`. -/
 theorem pipe_quiescent_calls_wait_for_environment (st : State) (hq : Quiescent st) :
     (∀ (i : Nat) (sd : Sender) (m : Msg), st.senders[i]? = some sd → sd.pc ≠ .try1 m ∧ sd.pc ≠ .try2 m) ∧
-    (∀ (i : Nat) (sd : Sender) (m : Msg), st.senders[i]? = some sd → sd.pc = .send m →
-      st.streamDone = false ∧ st.senderDone = false ∧ sd.ctx = false ∧ st.cap ≤ st.buf.length ∧
+    (∀ (i : Nat) (sd : Sender) (m : Msg) (p : Bool), st.senders[i]? = some sd → sd.pc = .send m p →
+      p = true ∧ st.streamDone = false ∧ st.senderDone = false ∧ sd.ctx = false ∧ st.cap ≤ st.buf.length ∧
       canHandoff st sd = false) ∧
     st.rpc ≠ .drain ∧
-    (st.rpc = .next → st.buf = [] ∧ st.senderDone = false ∧ st.rctx = false ∧
+    (∀ p : Bool, st.rpc = .next p → p = true ∧ st.buf = [] ∧ st.senderDone = false ∧ st.rctx = false ∧
       ∀ sd ∈ st.senders, canHandoff st sd = false) :=
   quiescent_waits ⟨⟨by decide, by decide, by decide⟩, by decide, ⟨by decide, by decide, by decide⟩,
     ⟨by decide, by decide, by decide, fun _ => by decide, fun _ => by decide, by decide⟩, by decide⟩ hq
 
 /-- non-vacuity: a quiescent state with a pending call — sender 0 parked in `Send 9` on the full
 buffer of a pipe nobody reads -/
-example : ∃ st sd, Reach (init 2 1) st ∧ st.senders[0]? = some sd ∧ sd.pc = .send ⟨0, 1, 9⟩ ∧
-    (∀ l ∈ ([.handoff 0, .handoff 1, .recv .dflt, .recv (.recv chData), .recv (.recv chCtx), .recv (.recv chSenderDone),
+example : ∃ st sd, Reach (init 2 1) st ∧ st.senders[0]? = some sd ∧ sd.pc = .send ⟨0, 1, 9⟩ true ∧
+    (∀ l ∈ ([.handoff 0, .handoff 1, .park 0, .park 1, .parkRecv, .recv .dflt, .recv (.recv chData), .recv (.recv chCtx), .recv (.recv chSenderDone),
         .sender 0 (.send chData), .sender 0 (.recv chCtx), .sender 0 (.recv chStreamDone), .sender 0 (.recv chSenderDone),
         .sender 0 .dflt, .sender 1 .dflt] : List Label), step st l = none) ∧ mu st = 1 :=
-  ⟨after (init 2 1) [.startSend 0 7 false, .sender 0 (.send chData), .startSend 0 9 false], _,
+  ⟨after (init 2 1) [.startSend 0 7 false, .sender 0 (.send chData), .startSend 0 9 false, .park 0], _,
    reach_after (by decide), rfl, rfl, by decide, by decide⟩
+
+/-- **On an unbuffered pipe a `Send` and a `Next` never both wait.** In a reachable quiescent state of a pipe
+with `bufferSize = 0` there is no pending `Send` together with a pending `Next`: by the theorem above
+both would be parked, and the wait-queue discipline of the LTS (`park` is enabled only when the poll
+finds no parked partner; proved invariant `QInv`) excludes that. Together with
+`pipe_internal_steps_terminate`: from any reachable state with a pending `Send` and a pending `Next`,
+every maximal run of internal steps ends with at least one of them returned. -/
+theorem pipe_unbuffered_send_and_next_never_both_wait {n : Nat} {st : State}
+    (hr : Reach (init n 0) st) (hq : Quiescent st)
+    {i : Nat} {sd : Sender} {m : Msg} {p q : Bool}
+    (hsd : st.senders[i]? = some sd) (hpc : sd.pc = .send m p) (hn : st.rpc = .next q) : False := by
+  have hcap : st.cap = 0 := by
+    have : ∀ {st}, Reach (init n 0) st → st.cap = 0 := by
+      intro st hr
+      induction hr with
+      | refl => simp [init, chanCap]
+      | step _ hs ih => rw [cap_step hs, ih]
+    exact this hr
+  exact quiescent_unbuffered_not_both
+    ⟨⟨by decide, by decide, by decide⟩, by decide, ⟨by decide, by decide, by decide⟩,
+     ⟨by decide, by decide, by decide, fun _ => by decide, fun _ => by decide, by decide⟩, by decide⟩
+    hr hcap hq hsd hpc hn
+
+/-- non-vacuity: reachable quiescent states of an unbuffered pipe with a waiting `Send` only, and with a
+waiting `Next` only -/
+example : ∃ st, Reach (init 1 0) st ∧ st.senders[0]?.map (·.pc) = some (.send ⟨0, 0, 5⟩ true) ∧ st.rpc = .idle ∧
+    (∀ l ∈ ([.handoff 0, .park 0, .parkRecv, .sender 0 (.send chData), .sender 0 (.recv chCtx),
+        .sender 0 (.recv chStreamDone), .sender 0 (.recv chSenderDone)] : List Label), step st l = none) :=
+  ⟨after (init 1 0) [.startSend 0 5 false, .park 0], reach_after (by decide), by decide, by decide, by decide⟩
+example : ∃ st, Reach (init 1 0) st ∧ st.rpc = .next true ∧
+    (∀ l ∈ ([.handoff 0, .park 0, .parkRecv, .recv (.recv chData), .recv (.recv chCtx), .recv (.recv chSenderDone)] : List Label),
+      step st l = none) :=
+  ⟨after (init 1 0) [.startNext false, .parkRecv], reach_after (by decide), by decide, by decide⟩
 
 end Juniper.Props.C10Progress
